@@ -69,7 +69,10 @@ type RWModel struct {
 }
 
 // WGModel is the scheduler's view of a WaitGroup.
-type WGModel struct{ N int }
+type WGModel struct {
+	N       int
+	Waiters int // tasks parked in (or not yet returned from) Wait
+}
 
 // OnceModel is the scheduler's view of a Once: 0 idle, 1 running, 2 done.
 type OnceModel struct{ State int }
@@ -692,6 +695,12 @@ func WGAdd(m *WGModel, n int) {
 	if s == nil || getg() == s.schedG {
 		return
 	}
+	if n > 0 && m.N == 0 && m.Waiters > 0 {
+		// sync.WaitGroup's contract: a positive Add that starts from zero must
+		// happen before Wait, not while a previous Wait has not returned yet. The
+		// real implementation detects this only sometimes; the model always does.
+		panic("sync: WaitGroup misuse: Add called concurrently with Wait")
+	}
 	m.N += n
 }
 
@@ -703,7 +712,9 @@ func WGWait(m *WGModel, obj unsafe.Pointer) {
 	if s == nil || getg() == s.schedG {
 		return
 	}
+	m.Waiters++
 	s.park(OpWGWait, uintptr(obj), nil, nil, m, nil, nil)
+	m.Waiters--
 }
 
 // OnceEnter parks until the Once is idle or done; it returns true if the
